@@ -29,8 +29,37 @@ class IndexReplacer(MultiFunction):
         """
         MultiFunction.__init__(self)
         self.fimap = fimap
+        # Indices that must not be captured by a binder inside the expression
+        self._images = {j for j in fimap.values() if isinstance(j, Index)}
+        self._vcache: dict = {}
+        self._rcache: dict = {}
 
     expr = MultiFunction.reuse_if_untouched
+
+    def _binder(self, o):
+        """Handle a node that binds indices (IndexSum, ComponentTensor).
+
+        A bound index that is replaced by, or is the image of, the replacement
+        map is renamed first: it is a different index than the free one.
+        """
+        a, bound = o.ufl_operands
+        clash = [i for i in bound if i in self.fimap or i in self._images]
+        if clash:
+            renaming = {i: Index() for i in clash}
+            a = map_expr_dag(IndexReplacer(renaming), a)
+            bound = MultiIndex(tuple(renaming.get(i, i) for i in bound))
+        a = map_expr_dag(self, a, vcache=self._vcache, rcache=self._rcache)
+        if a is o.ufl_operands[0]:
+            return o
+        return o._ufl_expr_reconstruct_(a, bound)
+
+    def index_sum(self, o):
+        """Handle IndexSum."""
+        return self._binder(o)
+
+    def component_tensor(self, o):
+        """Handle ComponentTensor."""
+        return self._binder(o)
 
     def zero(self, o):
         """Handle Zero."""
